@@ -282,6 +282,10 @@ func getRange(expr string, r bounds) (uint64, error) {
 
 	var extra uint64
 	if lowAndHigh[0] == "*" || lowAndHigh[0] == "?" {
+		// "*" and "?" stand for the whole range on their own: they cannot be the start of a "low-high" range
+		if len(lowAndHigh) > 1 {
+			return 0, fmt.Errorf("range not allowed after %s: %s", lowAndHigh[0], expr)
+		}
 		start = r.min
 		end = r.max
 		extra = starBit
